@@ -560,7 +560,27 @@ def pure_wrapper_kernels(prefix, file, cls, statecls, fname, fty, methods):
 
 _ALL_METHODS = ["initial", "transition", "observation", "reward", "terminal", "truncate", "action_mask", "transition_info"]
 
+# ------------------------------------------------------------------------------------------------ C20: gait (per-foot view)
+def _p_fmod(ex, n, args, kwargs):
+    if len(args) != 2 or kwargs:
+        fail(n, "fmod form")
+    return lift(lambda a, b: Sc("R", f"(fmodR {to_sc(a, 'R', n).t} {to_sc(b, 'R', n).t})"), args, n)
+
+
+def _gait_init_out(res, ex):
+    if not (isinstance(res, (list, tuple)) and len(res) == 2):
+        raise TranslateError("initial_gait_phase no longer returns the two phases")
+    return [("left", "R", term_of(res[0], "R")), ("right", "R", term_of(res[1], "R"))]
+
+
+_GAIT = "env/unitree/g1/gait.py"
+
 KERNELS = {
+    "C20": [Kernel("gait_initial", _GAIT, None, "initial_gait_phase", lambda: {}, "(u : unit)", _gait_init_out),
+            Kernel("gait_advance", _GAIT, None, "advance_gait_phase", lambda: {"phase": R("ph"), "frequency": R("f"), "dt": R("dt")},
+                   "(ph f dt : R)", lambda res, ex: [("value", "R", term_of(res, "R"))], prims={"jnp.fmod": Prim(_p_fmod)}),
+            Kernel("gait_height", _GAIT, None, "desired_foot_height", lambda: {"phase": R("ph"), "swing_height": R("h")},
+                   "(ph h : R)", lambda res, ex: [("value", "R", term_of(res, "R"))])],
     "C04": [Kernel("onstep", "algorithm/on_policy.py", "AbstractActorCriticOnPolicyAlgorithm", "step", _onstep_bind,
                    "{S PS O CB : Type} (gamma : Q) (E : env S Q O) (P : acpol PS Q O) (es : S) (ps : PS) (cbs : CB) (k : kpath)",
                    _onstep_out, carrier="Q", prims={"jnp.clip": Prim(_p_clip_space)})],
@@ -694,7 +714,7 @@ def coq_text(pid, imports=()):
     return "\n".join(parts)
 
 
-IMPORTS = {"C19": ("Logging",), "C06": ("Replay",), "C01": ("Env",), "C13": ("Env",), "C04": ("Env", "OnPolicy"), "C05": ("Env", "OnPolicy")}
+IMPORTS = {"C19": ("Logging",), "C06": ("Replay",), "C01": ("Env",), "C13": ("Env",), "C04": ("Env", "OnPolicy"), "C05": ("Env", "OnPolicy"), "C20": ("Gait",)}
 
 
 def generate(pid, coq_dir: Path):
